@@ -204,5 +204,38 @@ PROPS["C14"] = {
     "exhaustive": True,
 }
 
+PROPS["C05"] = {
+    "budget": {"quick": 50, "thorough": 540},
+    "rule": "(programs) 20 hand-written union / struct / module programs plus generated programs (profiles unions, modules, mixed; literal and hidden constants) are each parsed and run 8 (quick) / 32 (thorough) times in one process - every "
+            "HashSet / HashMap instance inside gets fresh hash keys - and again in 3 / 8 freshly started processes; accepted-or-not, the canonicalised static type (sorted union members / struct fields), the canonicalised value or the error variant must be identical. "
+            "(types) pairs of types (depth-1 universe and unions of >= 3 generated members of depth <= 3) are built 8 times each through constructors and through parsing in permuted member order, and 23 public Type API answers "
+            "(==, matches both ways, |, conjoin, index_result, params, return_type, element_type, mut_element_type, tuple_len, min_tuple_len, iter_element, tuple_element_at, field_type, has_field, flatten_tuple, is_*) must be identical across builds; "
+            "separately built copies must be == and mutually matching. distinct_nontrivial = distinct program texts and type pairs.",
+    "assumptions": COMMON_ASSUME + ["hash orders explored are whatever the runtime's random keys produce in the repetitions, not all permutations; evidence counts how many programs / types were actually seen in more than one print order"],
+    "floors": {"quick": {"programs": 5000, "cross-process-comparisons": 10000, "copies-compared": 50000, "programs-with-several-print-orders-of-their-type": 200},
+               "thorough": {"programs": 100000, "cross-process-comparisons": 500000, "copies-compared": 1000000, "programs-with-several-print-orders-of-their-type": 2000}},
+    "technique": "runtime repetition monitor: K in-process repetitions (fresh hash keys) and P separate processes per program; K rebuilds per type pair over the whole public Type API",
+    "level_text": "Each program / type pair is observed under several independently seeded hash orders in one process and across processes; any difference in acceptance, canonical type, value, error variant or API answer is a violation. Exploration over hash seeds and generated programs.",
+    "level_note": "cannot enumerate hash orders; power is shown by the number of cases seen in several print orders",
+    "exhaustive": False,
+}
+
+PROPS["C17"] = {
+    "budget": {"quick": 50, "thorough": 540},
+    "rule": "(REPL vs batch) generated top-level statement sequences of 2-6 statements (declarations, re-declarations, cells, closures, functions calling earlier functions, destructuring; literal or hidden constants): every prefix is run as one program, "
+            "and the sequence is fed to one interpreter (parse against it, exec_unscoped) under every split into REPL inputs (all 2^(n-1)); wherever both routes complete, the last result and the values of all top-level variables "
+            "(one canonical tuple, so aliasing between variables counts) must agree for every prefix; acceptance differences are recorded, not flagged. (exec) programs parsed against an interpreter that was set up by earlier statements: "
+            "exec() must leave every known name bound to the same cell / function / value; programs parsed against a bare interpreter are executed twice: equal results and no cell shared between the two results. "
+            "(host calls) 19 hand-written functions x 120 argument vectors each (well-typed, extra / missing argument, one ill-typed argument; the same contents generated twice so each route gets its own cells) and every function a generated history yields: "
+            "create_call must accept exactly when the in-language call of the same values is accepted, and (fixed functions) return the same value or error. distinct_nontrivial = distinct histories / programs.",
+    "assumptions": COMMON_ASSUME + ["the set of top-level names of a history comes from the generator (the interpreter has no enumeration API)", "results of generated (possibly stateful) functions are not compared between the two call routes, only acceptance"],
+    "floors": {"quick": {"histories": 3000, "prefixes-compared": 100000, "splits": 30000, "exec:repeatability-judged": 1500, "host-call:both-accept": 3000, "host-call:both-reject": 2000},
+               "thorough": {"histories": 100000, "prefixes-compared": 3000000, "splits": 1000000, "exec:repeatability-judged": 50000, "host-call:both-accept": 50000, "host-call:both-reject": 30000}},
+    "technique": "runtime history monitor: incremental vs batch execution under every split, interpreter state before/after exec, host vs in-language calls",
+    "level_text": "Thousands of generated statement histories are executed along both routes under every split; exec isolation and repeatability are observed on the interpreter's state and on cell identity; host calls are compared with in-language calls on well- and ill-typed argument vectors. Exploration; exhaustive over splits for n <= 6.",
+    "level_note": "histories are those the generator's repl profile emits (<= 6 statements)",
+    "exhaustive": False,
+}
+
 # properties deliberately not claimed (reason each); anything else missing from PROPS is simply not built yet
 NOT_APPLICABLE = {}
